@@ -75,7 +75,14 @@ func (fbs *fragmentsByStream) pop(streamID uint32) ([]hpack.HeaderField, []byte)
 func createHTTP2Assembler(b *bufio.Reader) *Http2Assembler {
 	var framerOutput bytes.Buffer
 	framer := http2.NewFramer(&framerOutput, b)
-	framer.ReadMetaHeaders = hpack.NewDecoder(initialHeaderTableSize, nil)
+	decoder := hpack.NewDecoder(initialHeaderTableSize, nil)
+	// How large a table this half's encoder may use is announced by its peer, in the other
+	// half of the connection (SETTINGS_HEADER_TABLE_SIZE), which this assembler does not see.
+	// A peer that announces more than the default 4096 lets the encoder send a dynamic table
+	// size update beyond it; refused, it was a COMPRESSION_ERROR and every later stream of
+	// the half was lost. The table only ever holds what the header blocks put into it.
+	decoder.SetAllowedMaxDynamicTableSize(math.MaxUint32)
+	framer.ReadMetaHeaders = decoder
 	return &Http2Assembler{
 		fragmentsByStream: make(fragmentsByStream),
 		framer:            framer,
